@@ -48,14 +48,13 @@ Example C03_toposort_cycle_diverges : ltac:(let t := type of toposort_cycle_dive
 Proof. exact toposort_cycle_diverges. Qed.
 
 (* (b) bit names: str(int) / int(str) are inverse and the reader's splitting undoes the writer's
-   "<ident>_<i>_" / "<name>[<i>]" for every i : N, every identifier that is not "&" and does not
-   start with "&_", every name that does not start with a backslash *)
+   "<ident>_<i>_" / "<name>[<i>]" for every i : N, every identifier (also "&" / "&_...": repaired
+   K4), every name that does not start with a backslash *)
 Theorem C03_dec_inverse : forall n : N, int_of (dec n) = n.
 Proof. exact int_of_dec. Qed.
 Print Assumptions C03_dec_inverse.
 
 Theorem C03_bitname_inverse : forall (ident name : str) (i : N),
-  starts_amp_us (ident ++ [c_us]) = false ->
   (match name with c :: _ => c <> c_bsl | [] => True end) ->
   net_bit (bit_ident ident i) (bit_name name i) = Some (Some i, name, ident).
 Proof. exact bitname_inverse. Qed.
@@ -70,9 +69,7 @@ Proof. exact bitname_bracket_full. Qed.
 Print Assumptions C03_bitname_bracket_exact.
 
 Theorem C03_bitname_underscore_exact : forall (ident : str) (i : N),
-  sep_underscore (bit_ident ident i) =
-  if negb (starts_amp_us (ident ++ [c_us])) || is_empty (last (split_on c_us ident) [])
-  then (Some i, ident) else (None, bit_ident ident i).
+  sep_underscore (bit_ident ident i) = (Some i, ident).
 Proof. exact bitname_underscore_full. Qed.
 Print Assumptions C03_bitname_underscore_exact.
 
@@ -133,7 +130,7 @@ Proof. exact lex_print_needs_no_quote. Qed.
 (* (b)+(c) composed: ONE CABLE through the writer and back through the reader, the nets in any
    file order *)
 Theorem C03_cable_roundtrip : forall P ident name (c : cab P) nets,
-  ident_ok ident -> name_ok name -> c_wires c <> [] -> is_bus c ->
+  name_ok name -> c_wires c <> [] -> is_bus c ->
   Permutation nets (emit_cable ident name c) ->
   read_cable nets = Some (name, ident, mkcab (c_lower c) true (c_wires c)).
 Proof. exact bus_roundtrip_any_order. Qed.
@@ -168,26 +165,21 @@ Proof. exact cell_nets_collision_bitlike. Qed.
 Example C03_cell_nets_collision_ident : ltac:(let t := type of cell_nets_collision_ident in exact t).
 Proof. exact cell_nets_collision_ident. Qed.
 
-(* REFUTATIONS inside the property's quantifier (both replayed on the implementation by the
-   check: corpus/edif/c03-amp-underscore-bus.json, c03-bitlike-scalar.json):
-   1. a bus of two or more wires whose identifier is "&" or starts with "&_" and does not end in
-      "_" (EdififyNames gives such an identifier to every name starting with a character that is
-      neither a letter nor a digit) is not read back as one cable *)
-Theorem C03_refuted_amp_bus : forall P ident name (c : cab P),
-  starts_amp_us (ident ++ [c_us]) = true -> (forall p, ident <> p ++ [c_us]) -> name_ok name ->
-  (2 <= length (c_wires c))%nat ->
-  read_cable (emit_cable ident name c) = None.
-Proof. exact bus_amp_not_read. Qed.
-Print Assumptions C03_refuted_amp_bus.
-Example C03_refuted_amp_bus_witness : ltac:(let t := type of bus_amp_ident_lost in exact t).
-Proof. exact bus_amp_ident_lost. Qed.
-(* 2. a SCALAR net named "x[1]" with identifier "x_1_" comes back as array cable "x", lower 1 *)
+(* REPAIRED (K4; corpus/edif/c03-amp-underscore-bus.json is a regression case): a bus whose identifier is
+   "&" or starts with "&_" (EdififyNames gives such an identifier to every name starting with a character
+   that is neither a letter nor a digit) is read back as one cable - [C03_cable_roundtrip] no longer
+   excludes these identifiers; the former witness: *)
+Example C03_amp_bus_read_back : ltac:(let t := type of bus_amp_ident_read in exact t).
+Proof. exact bus_amp_ident_read. Qed.
+(* REFUTATION inside the property's quantifier (replayed on the implementation by the check:
+   corpus/edif/c03-bitlike-scalar.json): *)
+(* a SCALAR net named "x[1]" with identifier "x_1_" comes back as array cable "x", lower 1 *)
 Example C03_refuted_bitlike_scalar : ltac:(let t := type of scalar_bitlike_lost in exact t).
 Proof. exact scalar_bitlike_lost. Qed.
 
 (* The statement at full strength, over a whole-file model that does not exist yet: [nv] a pure
    netlist value, [edifify] the writer's pre-pass, [emit] its document, [elab] the reader from
-   document to netlist value. NOT PROVED (and, by the two refutations above, false for the code
+   document to netlist value. NOT PROVED (and, by the refutation above, false for the code
    as it is unless [expressible] also excludes those names). *)
 Record edif_pipeline := {
   nv : Type;
